@@ -62,6 +62,18 @@ CLAIMED = {
         "Trusted: Lean kernel; hand-written model tied by sampled correspondence; ASCII-only lower-casing.",
         "DESIGN.md §7 C12",
     ),
+    "C08": (
+        "Lean 4 theorems on the stable merge sort with Python's tuple order (permutation, ordered both directions, ties stable, depth sorter) + differential test vs the real sorters and %Count() numbering through the CLI",
+        "Proved in Lean for every file list, key function and direction: the processing order is a permutation of the "
+        "selection, ordered by the evaluated tuples (numbers numerically, strings by code point, tuples element-wise) "
+        "ascending or descending, ties in gathering order; it agrees with Python's comparison wherever that is "
+        "defined; the depth sorter never puts an entry before a deeper one. Tied to the real TemplateFileSorter / "
+        "PathDepthSorter on hostile names and forced ties with keys computed independently, and to CLI runs in which "
+        "%Count() reveals the processing order.",
+        "Trusted: Lean kernel; sorted() is a stable sort; eval(repr(v)) == v for the key values (C14); hand-written "
+        "model tied by sampled correspondence.",
+        "DESIGN.md §7 C08",
+    ),
 }
 
 NOT_YET = "check not built yet in this snapshot of /verif (work in progress, see DESIGN.md §7)"
